@@ -107,6 +107,14 @@ def Decomp : Node R V → Prop
   | had _ _ ch => (∀ h, (ch h).Decomp) ∧ ∀ h h' v, h ≠ h' → Mem v (ch h) → ¬ Mem v (ch h')
   | kron _ _ ch => (∀ h, (ch h).Decomp) ∧ ∀ h h' v, h ≠ h' → Mem v (ch h) → ¬ Mem v (ch h')
 
+/-- `y[v ↦ a]` -/
+def upd {V : Type} (y : Nat → V) (v : Nat) (a : V) : Nat → V := fun u => if u = v then a else y u
+
+/-- A finite weighted sum `g ↦ Σ_{a ∈ dom} w a · g a`: the sum over a discrete domain (`w = 1`) or
+    any quadrature rule. -/
+def quad (o : Ops R) (dom : List V) (w : V → R) (g : V → R) : R :=
+  o.sumL (dom.map fun a => o.mul (w a) (g a))
+
 /-! ### integrate -/
 
 /-- Integrate variable `v` out with the linear functional `S` (`S g = Σ_{a ∈ dom} w a · g a` for a
@@ -129,7 +137,7 @@ def integ (S : Nat → (V → R) → R) : List Nat → Node R V → Node R V
 def sumOver (S : Nat → (V → R) → R) : List Nat → ((Nat → V) → R) → (Nat → V) → R
   | [], g, y => g y
   | v :: vs, g, y =>
-      sumOver S vs (fun y' => S v (fun a => g (fun u => if u = v then a else y' u))) y
+      sumOver S vs (fun y' => S v (fun a => g (upd y' v a))) y
 
 /-! ### evidence -/
 
